@@ -152,7 +152,9 @@ pub fn run(ctx: &Ctx) {
                 if !ctx.want(case) {
                     continue;
                 }
+                let _g = op_begin("send-with-many-attachments", case);
                 let (problems, accepted) = run_one(&sz, n, mix, data, &mut nonce);
+                drop(_g);
                 rep.case(&(mix, data, n, sz.sndbuf), true);
                 rep.stat("sends", 1);
                 rep.stat(if accepted { "accepted" } else { "refused" }, 1);
